@@ -46,7 +46,7 @@ def polar_of(pars, prefix):
     return pars[prefix + "r"], pars[prefix + "i"]
 
 
-def run_config(ctx, rnd, tag, M0, mf, res, nev, cases, p4=None, pars=None, info=None):
+def run_config(ctx, rnd, tag, M0, mf, res, nev, cases, p4=None, pars=None, info=None, vcases=None):
     from tf_pwa.config_loader import ConfigLoader
     cfg = ampkit.three_body_config(M0, mf, res)
     config = ConfigLoader(cfg)
@@ -59,7 +59,15 @@ def run_config(ctx, rnd, tag, M0, mf, res, nev, cases, p4=None, pars=None, info=
         p4 = ampkit.gen_events(M0, mf, nev, rnd.randrange(10 ** 6))
     nev = len(p4["B"])
     data = config.data.cal_angle(p4)
-    dens = np.array(amp(data))
+    if vcases is not None:
+        # the GENERIC pipeline layers of the same model (LS couplings with CG radicals, barrier, vertex = H * D*), tied to Amp/Chain.v;
+        # their composition for spin-0 externals is the closed form by theorem C04_generic_pipeline_is_closed_form
+        import amplayers
+        with amplayers.VertexCapture() as cap:
+            dens = np.array(amp(data))
+        vcases.extend(amplayers.vertex_cases(ctx, tag, cap, [0], rnd, max_comp=2, meta0={"config": cfg}))
+    else:
+        dens = np.array(amp(data))
     per_chain, full = ampkit.chain_amps(amp, data)
     dg = amp.decay_group
     d = 3.0
@@ -197,23 +205,28 @@ def run(ctx):
                 "every J once, thorough 40 configs x 5 events")
     common.theorem_stage(ctx)
     cases = []
+    vcases = []
+    ctx.extra_targets = ["Amp/Chain.vo"]
     quick = ctx.tier == "quick"
     plans = [([J], 1, False) for J in range(5)] + [(None, 3, False), ([1, 2], 2, True), ([3], 1, True)] if quick else \
         [([J], 1, False) for J in range(5)] * 2 + [([J, 2], 2, True) for J in range(1, 5)] + [(None, None, False)] * 30
     for n, (Jl, nres, beyond) in enumerate(plans):
         M0, mf, res = build(rnd, Jl, nres, beyond)
-        cfg = run_config(ctx, rnd, "g%d" % n, M0, mf, res, 3 if quick else 5, cases)
+        cfg = run_config(ctx, rnd, "g%d" % n, M0, mf, res, 3 if quick else 5, cases, vcases=(vcases if (n < 5 or not quick and n % 4 == 0) else None))
         if n == 0:
             ctx.sample({"config": cfg})
     for c in cases[:: max(1, len(cases) // 4)]:
         ctx.sample({"case": c[0], "goal": c[1][:500]})
     res = common.coq_cases(ctx, "c04", HEADER, [c[:3] for c in cases], per_file=6, case_timeout=60)
+    import amplayers
+    res.update(common.coq_cases(ctx, "c04v", amplayers.HEADER, [c[:3] for c in vcases], per_file=6, case_timeout=90))
+    cases = cases + vcases
     for cid, stmt, tac, meta in cases:
         if res[cid] != "OK":
             ctx.fail(meta["layer"], cid, "implementation differs from the closed form at layer %s (%s)" % (meta["layer"], res[cid]), inp=meta,
                      site="amplitude:" + meta["layer"], fingerprint=meta["layer"])
     return common.finish(ctx, search=search, technique=TECHNIQUE, extra_assumptions=[
-        "the generic pipeline model (arbitrary spins) is not used here: the closed form is tied to the code directly; its equality with the generic model is future work (pipeline_equals_closed_form)",
+        "the closed form is tied to the code directly (layers K/Q/A/D); the generic pipeline model (Amp/Chain.v, arbitrary spins) is tied on the same models' vertices (J = 0..4), and for spin-0 externals it EQUALS the closed form by theorem C04_generic_pipeline_is_closed_form",
         "rtol 1e-9 on chain amplitudes, atol 1e-8 on cos(theta), events from the library's generator"])
 
 
